@@ -176,17 +176,14 @@ Proof.
   rewrite H in Ha. rewrite Ha in Hb. inversion Hb; reflexivity.
 Qed.
 
-(* instance: the LaTeX table as the translator would emit it *)
-Definition latex_tbl : table :=
-  [ (123, [92;123]); (125, [92;125]); (91,[91]); (93,[93]); (37,[92;37]); (38,[92;38]);
-    (36,[92;36]); (35,[92;35]); (95,[92;95]); (94,[92;94;123;125]);
-    (92,[92;116;101;120;116;98;97;99;107;115;108;97;115;104;123;125]);
-    (126,[92;126;123;125]); (160,[126]) ].
-Lemma latex_ok : table_ok latex_tbl = true. Proof. vm_compute. reflexivity. Qed.
-Definition roff_tbl : table :=
-  [ (34,[92;40;100;113]); (8230,[46;46;46]); (39,[92;40;99;113]); (46,[92;38;46]); (92,[92;101]); (160,[92;126]) ].
-Lemma roff_ok : table_ok roff_tbl = true. Proof. vm_compute. reflexivity. Qed.
 
-Theorem latex_roundtrip : forall s, dec latex_tbl (length (enc latex_tbl s)) (enc latex_tbl s) = Some s.
-Proof. intros s. apply dec_enc; [exact latex_ok | apply le_n]. Qed.
-Print Assumptions latex_roundtrip.
+(* every character of [specials] is a key: it can only leave [enc] inside its image *)
+Definition specials_are_keys (tbl : table) (specials : str) : bool := forallb (is_key tbl) specials.
+
+(* token view of the encoding: one token per source rune, either the row's image or the rune itself when it is not a key *)
+Lemma enc_tokens : forall tbl s, enc tbl s = concat (map (enc1 tbl) s).
+Proof. intros. unfold enc. apply flat_map_concat_map. Qed.
+Lemma enc1_cases : forall tbl c, (exists im, lookup tbl c = Some im /\ enc1 tbl c = im) \/ (is_key tbl c = false /\ enc1 tbl c = [c]).
+Proof. intros tbl c. unfold enc1, is_key. destruct (lookup tbl c); [left; eauto | right; auto]. Qed.
+Lemma enc_app : forall tbl a b, enc tbl (a ++ b) = enc tbl a ++ enc tbl b.
+Proof. intros. unfold enc. apply flat_map_app. Qed.
